@@ -84,7 +84,7 @@ PROPERTIES = {
     'C03': dict(level='translation_validation', functions=[], special_driver='pyvc/check_c03.py'),
     'C18': dict(
         level='proof',
-        functions=['fragments:FragmentsOfRegexps.insert', 'fragments:FragmentsOfRegexps.append', 'fragments:FragmentsOfRegexps.assemble_regexp',
+        functions=['fragments:FragmentsOfRegexps.__init__', 'fragments:FragmentsOfRegexps.insert', 'fragments:FragmentsOfRegexps.append', 'fragments:FragmentsOfRegexps.assemble_regexp',
                    'C18#field:Int._pack_fixed_and_primitive_size', 'C18#field:Int._pack_fixed_size', 'C18#field:Data.pack',
                    'field:Int.pack_regexp', 'field:Data.pack_regexp',
                    'packet:Packet.as_regular_expression_impl', 'packet:Packet.as_regular_expression',
@@ -97,7 +97,7 @@ PROPERTIES = {
         trusted_base=_COMMON_TRUST + [
             'ASSUMED denotation of the piece shapes under (?s) (contracts/lemmas.py _rx_theory): re.escape(x) matches exactly x, ".{n}" exactly the strings of n bytes, '
             '".*" everything, the language of a concatenation contains the concatenations; cross-checked against CPython re on every run (bounded)',
-            're.compile keeps the text it is given as .pattern; FragmentsOfRegexps.__init__ forwards to Fragments.__init__ and creates an empty piece map (role contract, *args forwarding)'],
+            're.compile keeps the text it is given as .pattern; FragmentsOfRegexps.__init__(*args, **kargs) is proved for empty *args / **kargs only (the one construction in the library, an obligation at that call site): forwarding of non-empty extra arguments is outside the python subset'],
         assumptions=['BOUNDED stand-in (not proof): Bits.pack_regexp is string manipulation over "0", "1", "x" outside the VC generator - decided by exhaustive native evaluation over all 3^8 '
                      'per-byte patterns x 256 bytes (eight one-bit fields) plus seeded multi-width runs',
                      'BOUNDED: the composition - the regions consumed by the fields of a flat declaration concatenate to a prefix of the input and the assembled expression is the '
